@@ -29,6 +29,8 @@ text (e.g. the set a membership test reads), snapshotted at that point.
 """
 from __future__ import annotations
 
+from sa.model import clone as _clone
+
 import ast
 import copy
 
@@ -71,6 +73,8 @@ def pretty(t, depth: int = 0) -> str:
         return "[" + ", ".join(t[1]) + "]"
     if k == "flatmap":
         return f"flatmap({pretty(t[1])}, {t[2]})"
+    if k == "slice":
+        return f"{pretty(t[1])}[{t[2]}]"
     if k == "gen":
         return f"gen({t[1]})"
     return f"<{k}: {t[1] if len(t) > 1 else ''}>"
@@ -85,7 +89,7 @@ def subterms(t):
             if x and isinstance(x[0], str) and x[0] in (
                     "src", "empty", "emptydict", "filter", "map", "concat",
                     "group", "dictmap", "items", "values", "keys", "set", "op",
-                    "lit", "opaque", "flatmap", "gen"):
+                    "lit", "opaque", "flatmap", "gen", "slice"):
                 yield from subterms(x)
             else:
                 # pred = (text, refs) or refs = ((name, term), ...)
@@ -102,7 +106,8 @@ def spine(t):
         return
     yield t
     k = t[0]
-    if k in ("filter", "map", "items", "values", "keys", "set", "flatmap"):
+    if k in ("filter", "map", "items", "values", "keys", "set", "flatmap",
+             "slice"):
         yield from spine(t[1])
     elif k == "concat":
         yield from spine(t[1])
@@ -135,7 +140,7 @@ class _Subst(ast.NodeTransformer):
                                               ctx=ast.Load()), node)
         if node.id in self.temps and self.depth < 8:
             self.depth += 1
-            out = self.visit(copy.deepcopy(self.temps[node.id]))
+            out = self.visit(_clone(self.temps[node.id]))
             self.depth -= 1
             return out
         return node
@@ -181,11 +186,11 @@ class CollAlg:
         return "plain"
 
     def text(self, e: ast.AST, rename=None, temps=None) -> str:
-        x = _Subst(rename or {}, self.fn_temps(temps)).visit(copy.deepcopy(e))
+        x = _Subst(rename or {}, self.fn_temps(temps)).visit(_clone(e))
         return ast.unparse(ast.fix_missing_locations(x))
 
     def refs(self, e: ast.AST, rename=None, temps=None) -> tuple:
-        x = _Subst(rename or {}, temps or {}).visit(copy.deepcopy(e))
+        x = _Subst(rename or {}, temps or {}).visit(_clone(e))
         out = {}
         for n in ast.walk(x):
             d = dotted(n) if isinstance(n, (ast.Name, ast.Attribute)) else None
@@ -234,6 +239,13 @@ class CollAlg:
         return t, "elem"
 
     def comp(self, e, make_set=False):
+        if len(e.generators) == 2 and not isinstance(e, ast.DictComp):
+            # [x for g in D.values() for x in g...]: the groups one after the
+            # other - a different order than the one the groups were filled in
+            outer = self.iter_base(e.generators[0].iter)[0]
+            if any(t[0] in ("group", "dictmap", "emptydict")
+                   for t in spine(outer)):
+                return ("op", "flatten-groups", outer, "")
         if len(e.generators) != 1 or e.generators[0].is_async:
             return ("opaque", "nested comprehension")
         g = e.generators[0]
@@ -279,6 +291,13 @@ class CollAlg:
             return self.comp(e, make_set=True)
         if isinstance(e, ast.BinOp) and isinstance(e.op, ast.Add):
             return ("concat", self.term(e.left), self.term(e.right))
+        if isinstance(e, ast.Subscript) and isinstance(e.slice, ast.Slice):
+            sl = e.slice
+            base = self.term(e.value)
+            if sl.step is None or (isinstance(sl.step, ast.Constant) and
+                                   sl.step.value == 1):
+                return ("slice", base, self.text(sl))
+            return ("op", "slice-with-step", base, self.text(sl))
         if isinstance(e, ast.Call):
             name = dotted(e.func) or ""
             short_name = name.rsplit(".", 1)[-1]
@@ -299,12 +318,27 @@ class CollAlg:
                         "list", "set", "dict", "int"))):
                 return ("emptydict", short_name + (
                     f"({dotted(e.args[0])})" if e.args else ""))
+            if name == "filter" and len(e.args) == 2 and not e.keywords:
+                f = e.args[0]
+                if isinstance(f, ast.Constant) and f.value is None:
+                    ptxt = "_"
+                elif isinstance(f, ast.Lambda) and len(f.args.args) == 1:
+                    ptxt = self.text(f.body, {f.args.args[0].arg: "_"})
+                else:
+                    ptxt = f"{self.text(f)}(_)"
+                return ("filter", self.term(e.args[1]), (ptxt, ()))
+            if name == "map" and len(e.args) == 2 and not e.keywords:
+                return ("map", self.term(e.args[1]),
+                        f"{self.text(e.args[0])}(_)", ())
             if short_name in REORDERING and e.args:
                 if short_name in ("set", "frozenset"):
                     return ("set", self.term(e.args[0]))
                 extra = ", ".join(f"{k.arg}={ast.unparse(k.value)}"
                                   for k in e.keywords)
                 return ("op", short_name, self.term(e.args[0]), extra)
+            if isinstance(e.func, ast.Attribute) and dotted(
+                    e.func.value) == "self" and "iterator" in e.func.attr:
+                return ("gen", self.text(e))
             return ("opaque", f"call {ast.unparse(e)[:60]}")
         return ("opaque", ast.unparse(e)[:60])
 
@@ -379,6 +413,12 @@ class CollAlg:
         if not (isinstance(f, ast.Attribute) and f.attr in MUTATORS):
             return False
         recv = f.value
+        # D.setdefault(k, []).append(e): group-by, like D[k].append(e)
+        if isinstance(recv, ast.Call) and isinstance(
+                recv.func, ast.Attribute) and recv.func.attr == "setdefault" \
+                and len(recv.args) == 2 and dotted(recv.func.value):
+            recv = ast.Subscript(value=recv.func.value, slice=recv.args[0],
+                                 ctx=ast.Load())
         # D[k].append(e): group-by
         if isinstance(recv, ast.Subscript):
             d = dotted(recv.value)
@@ -440,7 +480,7 @@ class CollAlg:
                         # resolve now: later rebinding of names it mentions
                         # must not change its meaning
                         self.plain[d] = _Subst({}, self.fn_temps(None)).visit(
-                            copy.deepcopy(s.value))
+                            _clone(s.value))
                     else:
                         self.plain.pop(d, None)
             return
@@ -612,6 +652,6 @@ def _replace_elem(text: str, value: str) -> str:
     class R(ast.NodeTransformer):
 
         def visit_Name(self, node):
-            return copy.deepcopy(v) if node.id == "_" else node
+            return _clone(v) if node.id == "_" else node
 
     return ast.unparse(ast.fix_missing_locations(R().visit(e)))
